@@ -169,6 +169,7 @@ struct Violation {
 	std::vector<int> seq; // choice sequence reproducing it
 	std::string unit;
 	std::vector<std::string> trace;
+	int deviations = 0;
 };
 
 struct Breadcrumb {
@@ -229,9 +230,17 @@ public:
 		std::string sig = harnessName + "/" + clause;
 		long & c = sigCount[sig];
 		++c;
+		int dev = ex.costUsed(ex.stack.size());
 		if(c == 1) {
-			Violation v; v.sig = sig; v.msg = msg; v.seq = ex.sequence(); v.unit = unitName;
+			Violation v; v.sig = sig; v.msg = msg; v.seq = ex.sequence(); v.unit = unitName; v.deviations = dev;
 			violations.push_back(v);
+		}
+		else {
+			// keep the counterexample with the fewest deviations (preemptions / nested actions), then the shortest
+			for(auto & v : violations) if(v.sig == sig) {
+				std::vector<int> s = ex.sequence();
+				if(dev < v.deviations || (dev == v.deviations && s.size() < v.seq.size())) { v.msg = msg; v.seq = s; v.deviations = dev; }
+			}
 		}
 	}
 
